@@ -234,11 +234,57 @@ def check_axiom(label, expr, counter):
     return "axiom %s fails in the intended model at %s" % (label, failing[:3])
 
 
-def run(reg):
+def real_n_advance_model(reg, repo):
+    """WADV / n_advance interpreted by the *real* n_advance of the tree under test and the recurrence
+    it induces (contracts/specs.py T_adv_factory); the trajectory argument is an interned string."""
+    import os
+    import sys
+    repo = repo or os.environ.get("VERIF_REPO", "/repo")
+    if repo not in sys.path:
+        sys.path.insert(0, repo)
+    try:
+        from checkpoint_schedules.multistage import n_advance as real
+    except Exception:
+        return {}
+    tables = {}
+
+    def traj(t):
+        name = reg.string_of(t) if isinstance(t, int) else None
+        if name not in ("maximum", "revolve"):
+            raise Undefined()
+        return name
+
+    def m_n_advance(n, u, t):
+        try:
+            return real(n, u, trajectory=traj(t))
+        except (ValueError, AssertionError, ZeroDivisionError):
+            raise Undefined()
+
+    def m_WADV(n, u, t):
+        name = traj(t)
+        if n < 1 or (n >= 2 and u < 1):
+            raise Undefined()
+        if name not in tables:
+            tables[name] = specs.T_adv_factory(real, name)
+        try:
+            return tables[name](n, u)
+        except (ValueError, AssertionError, ZeroDivisionError, RecursionError):
+            raise Undefined()
+    return {"n_advance": m_n_advance, "WADV": m_WADV}
+
+
+def run(reg, repo=None):
     """-> dict(axioms=.., instances=.., undefined=.., failures=[...], no_model=[...])"""
     counter = Counter()
     failures, checked, skipped = [], 0, []
-    for fname, axioms in reg.spec_axiom_text.items():
+    MODEL.update(real_n_advance_model(reg, repo))
+    INT_RANGE["t"] = (min([reg.intern("maximum"), reg.intern("revolve")]) - 1,
+                      max([reg.intern("maximum"), reg.intern("revolve")]) + 1)
+    every = {}
+    for fname, axioms in list(reg.spec_axiom_text.items()) + list(getattr(reg, "schema_only", {}).items()):
+        every.setdefault(fname, [])
+        every[fname] += list(axioms)
+    for fname, axioms in every.items():
         if fname in NO_MODEL or fname not in MODEL:
             skipped.append(fname)
             continue
